@@ -129,8 +129,8 @@ def run_scenarios(res, scen_list, monitor, spec_dir=SEM, tag="", timeout=1500, s
     return n
 
 
-RENAMES = {"x": ["xor", "sensor", "band", "x_1", "order1", "X"], "y": ["yand", "iso", "limit_y", "y2", "nulls"], "s": ["desc1", "likes", "s_text", "asc"],
-           "v": ["vor", "valueand", "v_1"], "w": ["wor", "width"]}
+RENAMES = {"x": ["xor", "sensor", "band", "x_1", "order1", "X", "xVal"], "y": ["yand", "iso", "limit_y", "y2", "nulls", "yMax"], "s": ["desc1", "likes", "s_text", "asc", "sName"],
+           "v": ["vor", "valueand", "v_1", "deviceTemp", "Vv"], "w": ["wor", "width", "isW"]}
 
 
 def rename_cols(sc, rng):
